@@ -346,7 +346,9 @@ class DatasetWorld(object):
             return {"op": "query", "what": rng.choice(["mono", "mono", "repr", "var_mono"]), "dim": rng.choice(dims)}
         if what in ("set", "replace"):
             key = rng.choice(keys) if what == "replace" else rng.choice(KEYS)
-            return {"op": "set", "key": key, "spec": self._spec(rng)}
+            # the same assignment spelled through the mutators Dataset inherits from dict
+            via = rng.choice(["setitem"] * 5 + ["update_dict", "update_kw", "update_pairs", "ior", "setdefault"])
+            return {"op": "set", "key": key, "spec": self._spec(rng), "via": via}
         if what == "axes_assign":
             # ds.axes = [Axis, ...]: relabels the existing dimensions named, appends the others
             k = rng.randint(1, min(2, len(dims)))
@@ -368,7 +370,7 @@ class DatasetWorld(object):
         if what == "set_raw":
             return {"op": "set_raw", "key": rng.choice(KEYS), "value": rng.choice([3, 2.5])}
         if what == "del":
-            return {"op": "del", "key": rng.choice(keys)}
+            return {"op": "del", "key": rng.choice(keys), "via": rng.choice(["del"] * 5 + ["pop", "pop", "popitem", "clear"])}
         if what == "rename_keys":
             old = rng.choice(keys)
             free = [k for k in KEYS + ["e", "f", "g", "h", "i", "j"] if k not in keys]
@@ -540,7 +542,8 @@ class DatasetWorld(object):
                     labels.append(V.gen_labels(rng, rng.randint(1, 3), self.cfg["dim_kind"].get(d)))
         spec = V.gen_array_spec(rng, self.cfg, dims=dims, labels=labels, dtype="f8")
         key = rng.choice(list(m.vars)) if (t["key"] == "existing" and m.vars) else rng.choice([k for k in KEYS + ["e", "f", "g", "h"] if k not in m.vars] or ["zz"])
-        return {"op": "reject", "key": key, "spec": spec, "template": t, "bad_dim": bad_dim, "kind": kind}
+        return {"op": "reject", "key": key, "spec": spec, "template": t, "bad_dim": bad_dim, "kind": kind,
+                "via": rng.choice(["setitem"] * 6 + ["update_dict", "update_kw", "setdefault"])}
 
     # -- Dataset-wide operations (C14) -----------------------------------------------------
     def _gen_dsop(self, rng):
@@ -792,8 +795,11 @@ class DatasetWorld(object):
             raise Skip("would be rejected")
         a = V.build_array(spec)
         a_before = V.snap(a) if "C15" in self.props else None
+        via = s.get("via", "setitem")
+        if via == "setdefault" and s["key"] in self.model.vars:
+            via = "setitem"
         try:
-            self.ds[s["key"]] = a
+            self._assign(via, s["key"], a)
         except Exception as e:
             if "C13" in self.props:
                 raise Violation("C13", "ds_accept", "ds[%r] = array with matching labels raised %s: %s" % (s["key"], type(e).__name__, str(e)[:200]))
@@ -806,6 +812,28 @@ class DatasetWorld(object):
         self.n_mut += 1
         return "ok"
 
+    def _assign(self, via, key, a):
+        ds = self.ds
+        self.count("c13:assign_via_" + via)
+        if via == "setitem":
+            ds[key] = a
+        elif via == "update_dict":
+            ds.update({key: a})
+        elif via == "update_kw":
+            ds.update(**{key: a})
+        elif via == "update_pairs":
+            ds.update([(key, a)])
+        elif via == "ior":
+            ds |= {key: a}
+            if ds is not self.ds:
+                raise Violation("C13", "ds_accept", "ds |= {...} rebound ds to a %s" % type(ds).__name__)
+        elif via == "setdefault":
+            got = ds.setdefault(key, a)
+            if got is not dict.__getitem__(ds, key):
+                raise Violation("C13", "ds_accept", "ds.setdefault(%r, array) returned something else than the stored variable" % (key,))
+        else:
+            raise ValueError(via)
+
     def x_set_raw(self, s):
         self.ds[s["key"]] = s["value"]
         self.model.setitem(s["key"], {"dims": [], "labels": [], "dtype": "f8" if isinstance(s["value"], float) else "i8", "values": s["value"]})
@@ -815,7 +843,24 @@ class DatasetWorld(object):
     def x_del(self, s):
         if s["key"] not in self.model.vars:
             raise Skip("key")
-        del self.ds[s["key"]]
+        via = s.get("via", "del")
+        self.count("c13:delete_via_" + via)
+        if via == "pop":
+            got = self.ds.pop(s["key"])
+            if list(got.dims) != self.model.vars[s["key"]]["dims"]:
+                raise Violation("C13", "ds_visible", "ds.pop(%r) returned dims %r, model %r" % (s["key"], got.dims, self.model.vars[s["key"]]["dims"]))
+        elif via == "popitem" and list(self.model.vars)[-1] == s["key"] and list(dict.keys(self.ds))[-1] == s["key"]:
+            k, got = self.ds.popitem()
+            if k != s["key"]:
+                raise Violation("C13", "ds_keys", "ds.popitem() removed %r, the last key is %r" % (k, s["key"]))
+        elif via == "clear":
+            self.ds.clear()
+            for k in list(self.model.vars):
+                self.model.delitem(k)
+            self.n_mut += 1
+            return "ok"
+        else:
+            del self.ds[s["key"]]
         self.model.delitem(s["key"])
         self.n_mut += 1
         return "ok"
@@ -1085,8 +1130,11 @@ class DatasetWorld(object):
         before = self.identity_state(self.ds)
         a_before = V.snap(a)
         raised = None
+        via = s.get("via", "setitem")
+        if via == "setdefault" and s["key"] in self.model.vars:
+            via = "setitem"
         try:
-            self.ds[s["key"]] = a
+            self._assign(via, s["key"], a)
         except ValueError as e:
             raised = e
         except Exception as e:
